@@ -187,6 +187,7 @@ fn tracker_visit_expr<'a>(expr: &ast::Expr<'a>, state: &mut AssignmentTracker<'a
             tracker_visit_expr(&expr.subscript_expr, state);
         }
         ast::Expr::Slice(slice) => {
+            tracker_visit_expr(&slice.expr, state);
             tracker_visit_expr_opt(&slice.start, state);
             tracker_visit_expr_opt(&slice.stop, state);
             tracker_visit_expr_opt(&slice.step, state);
@@ -211,6 +212,8 @@ fn track_assign<'a>(expr: &ast::Expr<'a>, state: &mut AssignmentTracker<'a>) {
         ast::Expr::Var(var) => state.assign(var.id),
         ast::Expr::List(list) => list.items.iter().for_each(|x| track_assign(x, state)),
         ast::Expr::Tuple(tuple) => tuple.items.iter().for_each(|x| track_assign(x, state)),
+        // `{% set ns.attr = value %}` looks up `ns`, it does not assign it.
+        ast::Expr::GetAttr(attr) => tracker_visit_expr(&attr.expr, state),
         _ => {}
     }
 }
@@ -224,11 +227,13 @@ fn track_walk<'a>(node: &ast::Stmt<'a>, state: &mut AssignmentTracker<'a>) {
         ast::Stmt::EmitExpr(expr) => tracker_visit_expr(&expr.expr, state),
         ast::Stmt::EmitRaw(_) => {}
         ast::Stmt::ForLoop(stmt) => {
-            state.push();
-            state.assign("loop");
+            // the iterable is evaluated before the loop is entered and the
+            // filter runs in a pass that has no `loop` variable yet.
             tracker_visit_expr(&stmt.iter, state);
+            state.push();
             track_assign(&stmt.target, state);
             tracker_visit_expr_opt(&stmt.filter_expr, state);
+            state.assign("loop");
             stmt.body.iter().for_each(|x| track_walk(x, state));
             state.pop();
             state.push();
